@@ -146,8 +146,12 @@ prop("C05", "exploration",
      "specifications, for one or many concurrent senders, with and without snappy.",
      "Trusted: harness/wire (frame, KeyValue, block stream decoders), protobuf-go.",
      [
+         {"test": "TestC05_WireContent", "quick": {"checks": 5000, "timeout": 300},
+          "thorough": {"checks": 60000, "shards": 16, "timeout": 2400}},
          {"test": "TestC05_ConcurrentSenders", "quick": {"checks": 4000, "timeout": 300},
           "thorough": {"checks": 40000, "shards": 16, "timeout": 2400}},
+         {"test": "TestC05_TCP", "quick": {"checks": 300, "timeout": 300},
+          "thorough": {"checks": 3000, "shards": 8, "timeout": 1200}},
      ],
      [])
 
